@@ -350,7 +350,10 @@ def run(chk, facts, tier, only=None):
                 else:
                     srcs.add("?")
                     fresh.append(None)
-            key = f"insert:{fname}/{ctx}:{mapname}:{'+'.join(sorted(srcs))}"
+            # the key names the call site (function / enclosing arm / map); where the inserted name comes from is reported in the text
+            # only — it changes when the naming code is moved into a helper, the finding does not
+            key = f"insert:{fname}/{ctx}:{mapname}"
+            key_src = '+'.join(sorted(srcs))
             # (1) is the returned Option inspected?
             p = par.get(id(n))
             inspected = True
